@@ -20,11 +20,14 @@ CYR = FULL.replace("Dept.M", "Dept.м").replace("STRT.M", "STRT.м").replace("ST
     "STEP.M", "STEP.м").replace("café", "скважина")
 # characters that str.splitlines()/str.isspace() treat specially but that are ordinary text inside a header field
 NEL = FULL.replace("café Nº1", "ca\x85fé\xa0Nº1").replace("free téxt", "free\x85téxt")
-CONTENTS = {"full": FULL, "nowell": NOWELL, "cyr": CYR, "nel": NEL}
+# decimal commas in the data (default read policy) and a comma-delimited file: reads of one must not change reads of the other
+COMMADEC = NOWELL.replace("1.0 10\n1.5 20\n", "1,0 10,5\n1,5 20,25\n")
+COMMADLM = NOWELL.replace("WRAP. NO : w\n", "WRAP. NO : w\nDLM. COMMA : d\n").replace("1.0 10\n1.5 20\n", "1.0,10\n1.5,20\n")
+CONTENTS = {"full": FULL, "nowell": NOWELL, "cyr": CYR, "nel": NEL, "commadec": COMMADEC, "commadlm": COMMADLM}
 TOKENS = {"full": ["café Nº1", "wéll name", "µ-field", "° sign", "µR/h", "gamma é", "°C", "free téxt"],
           "nowell": ["depth é"],
           "cyr": ["скважина", "м", "µR/h"],
-          "nel": ["ca\x85fé\xa0Nº1", "free\x85téxt", "µ-field"]}
+          "nel": ["ca\x85fé\xa0Nº1", "free\x85téxt", "µ-field"], "commadec": ["depth é"], "commadlm": ["depth é"]}
 OPTS = {"default": {}, "preserve": {"mnemonic_case": "preserve"}, "normal": {"engine": "normal"},
         "lower_ihe": {"mnemonic_case": "lower", "ignore_header_errors": True}}
 NL = {"LF": "\n", "CRLF": "\r\n", "CR": "\r"}
@@ -113,6 +116,8 @@ class World(object):
             else:
                 if enc != "utf-8-sig":
                     kw["encoding"] = enc
+                elif e.get("explicit_bom"):
+                    kw["encoding"] = e["explicit_bom"]       # a BOM file read with an explicit encoding= (utf-8 or utf-8-sig)
                 las = lasio.read(pathlib.Path(path) if ch == "Path" else path, **kw)
         self.objs.append(las)
         d, p = digest(las)
